@@ -3,13 +3,104 @@ SPEC = {
     'harness': 'hC36',
     'coq_dir': 'C36',
     'claimed': False,
-    'theorems': ['C36_placeholder'],
+    'theorems': ['C36_reply_to_own_request', 'C36_responder_holds_current_request', 'C36_at_most_once_delivery',
+                 'C36_reply_without_discipline_refuted', 'C36_discipline_satisfiable',
+                 'C36_after_close_errors', 'C36_queue_close_closes_topics',
+                 'C36_close_call_closes_refuted', 'C36_close_call_closes_partial',
+                 'C36_after_close_no_block_forever_refuted', 'C36_blocked_low_sender_stuck',
+                 'C36_after_close_no_block_forever_partial', 'C36_blocked_witness',
+                 'C36_partial_guard_satisfiable', 'C36_bulk_fill_agrees'],
     'allowed_axioms': [],
-    'shard': 40,
+    'shard': 24,
     'check_preamble': 'From C33 Require Import C36.Model C36.Spec.\nOpen Scope N_scope.\n',
-    'rule': 'tbd',
-    'trusted_base': [],
-    'assumptions': [],
-    'manifest': {'level_text': 'tbd', 'level_note': 'tbd', 'technique': 'tbd'},
+    'rule': '(a) scripted scenarios on the real queue: one orchestrating goroutine issues one API call after the other '
+            '(NewMessage pooled/plain, FreeMessage, Sub, SendTimeout high/low with timeout -1/0/30ms, non-blocking Recv, '
+            'Reply, WaitTimeout 30ms / Wait, Client.Close, Queue.Close); a call counts as blocked when it has not returned after '
+            '200 ms; after every call the harness waits until the pump goroutines are at rest (message conservation + stable '
+            'channel lengths) and records which parked calls returned and len(high), len(low) per topic, len(recv) per client; '
+            'at the end (after 3 s when the queue was closed) the sends still parked. Topics are preset through the hook with '
+            'capacities high 1-3 / low 1-4 (recv is 5 as in the code); one scenario uses the real 64/40960 channels. 1-2 topics, '
+            '2-4 clients, 6-40 calls, generated online from the API-level view. Streams: guarded (discipline kept, no low '
+            'wait-forever send, only subscribed clients are closed: every spec failure is a violation), unrestricted (may hit '
+            'findings 1/2), undisciplined (FreeMessage of messages still in flight: clauses 1-2 are not promised), witness-* '
+            '(fixed: blocked low sender in 5 shapes incl. real capacities, high sender woken by close, round trip with recycling, '
+            'stale reply through a recycled message). (b) concurrent: several requesters/responders on 1-3 topics with random '
+            'delays, timeouts, recycling and closes; per-participant logs merged; a monitor checks clauses 1-3 on the merged log '
+            '(a test, not compared with the LTS). non-trivial = at least one message was enqueued or a reply taken; distinct = '
+            'distinct Gallina case terms',
+    'trusted_base': [
+        'model = hand-written LTS (Model.v) of queue/queue.go + queue/client.go at the granularity "one channel operation / '
+        'one locked section = one event"; the pump goroutine evaluates its outer and inner select as one event (so a low-priority '
+        'message is never taken after the topic was closed); Go select picks any ready case (modelled as several enabled events)',
+        'ghost state in the model (never read by step): o_sent, o_where, s_deliv; the discipline predicate disc refers to o_where / o_sent',
+        'correspondence is by scripted scenarios: enabledness = "returned within 200 ms"; the harness decides when the pump '
+        'goroutines are at rest (conservation of messages and stable lengths) - a scheduling delay beyond the 400 ms settle limit '
+        'would show as a model disagreement',
+        'hook file /repo/queue/access_verif.go (build tag verif): VerifPresetTopic (creates a topic with small channel capacities), '
+        'VerifLens (len(high), len(low), isClose of a topic)',
+        'Check.bulk_fill (used only for the 40960-message fill) is a big-step shortcut of n x (ENew; ESend low MNow); '
+        'C36_bulk_fill_agrees replays it against the event-by-event version on samples',
+        'sync.Pool decides which object NewMessage returns; the harness identifies objects by pointer and the model accepts any '
+        'pooled or new object',
+    ],
+    'assumptions': [
+        'C36_reply_to_own_request / C36_at_most_once_delivery hold for disciplined traces (drun): a message is sent at most once '
+        'per NewMessage and not after FreeMessage; FreeMessage only when the message was not sent, its send failed, or the '
+        'responder has answered and the answer was taken (FreeMessage contract: "the context must no longer reference the '
+        'message"; all in-tree callers free only after a successful Wait). Without it the late reply reaches the next user of '
+        'the recycled object (C36_reply_without_discipline_refuted, reproduced on the Go code by the undisciplined witness)',
+        'responders reply with the ID they read when they received the message, at most once per received message',
+        'one Sub per client; Close of a client is not called concurrently with itself (a second overlapping Close would '
+        'close(client.done) twice); messages with Data == nil, ID == 0 and Ty == 0 (which the pump takes for the close '
+        'sentinel) and callback messages (NewMessageCallback) are not modelled',
+        'after close, Wait is shown to return for messages whose topic is closed (all topics that existed at Queue.Close, '
+        'C36_queue_close_closes_topics) or for callers whose own client is closed; a Wait on a message of a topic first used after '
+        'Queue.Close can block (such a message cannot have been sent)',
+        'open finding 1: a low-priority wait-forever send parked before the close stays parked for ever '
+        '(C36_after_close_no_block_forever_refuted; partial theorem for every other parked send)',
+        'open finding 2: Client.Close of a client that never subscribed does nothing (C36_close_call_closes_refuted)',
+    ],
+    'manifest': {
+        'level_text': 'partial: reply/at-most-once proved for all interleavings of disciplined traces of the LTS; after-close '
+                      'errors proved; "no send blocks for ever after close" refuted (finding 1) with a partial theorem; '
+                      '"Close closes the client" refuted for never-subscribed clients (finding 2). Tie to the Go code by '
+                      'scripted event-by-event correspondence; the concurrent runs are a test',
+        'level_note': 'hand-written LTS, event granularity and pump atomicity as listed in the trusted base; blocking observed with '
+                      'a 200 ms timeout; hook file for small capacities',
+        'technique': 'Coq proof (invariants by induction over all traces of a labelled transition system) + in-kernel '
+                     'correspondence check of scripted scenarios + concurrent monitor test',
+    },
     'harness_timeout': {'quick': 300, 'thorough': 3000},
 }
+
+
+def extra(ctx):
+    """Thorough tier: the concurrent runs once more under the Go race detector (a test)."""
+    import os, subprocess, time
+    if ctx.tier != 'thorough':
+        return {'coverage': {'race_detector_run': 'skipped in the quick tier (race build + link takes minutes)'}}
+    harness = os.path.join(os.path.dirname(os.path.dirname(os.path.abspath(__file__))), 'harness')
+    env = dict(os.environ, GOFLAGS='-mod=mod', GOPROXY='off', GOSUMDB='off', GOTOOLCHAIN='local')
+    t0 = time.time()
+    try:
+        b = subprocess.run(['go', 'build', '-race', '-tags', 'verif', '-o', 'bin/hC36race', './cmd/hC36'], cwd=harness, env=env,
+                           stdout=subprocess.PIPE, stderr=subprocess.STDOUT, text=True, timeout=2400)
+    except subprocess.TimeoutExpired:
+        return {'coverage': {'race_detector_run': 'race build timed out (cold cache); not run'}}
+    if b.returncode != 0:
+        return {'violations': [{'kind': 'no-failing-input-found', 'theorem_or_correspondence': 'race-detector build of cmd/hC36',
+                                'what': b.stdout[-1500:], 'case': None}]}
+    od = os.path.join(ctx.outdir, 'race')
+    os.makedirs(od, exist_ok=True)
+    try:
+        r = subprocess.run([os.path.join(harness, 'bin', 'hC36race'), '--seed', str(ctx.seed), '--tier', 'thorough',
+                            '--extra', 'conc', '--out', od], cwd=od, env=env, stdout=subprocess.PIPE,
+                           stderr=subprocess.STDOUT, text=True, timeout=1500, errors='replace')
+        out, rc = r.stdout, r.returncode
+    except subprocess.TimeoutExpired as ex:
+        out, rc = (ex.stdout or b'').decode('utf8', 'replace') if isinstance(ex.stdout, bytes) else (ex.stdout or ''), 124
+    viol = []
+    if 'DATA RACE' in out or rc != 0:
+        viol.append({'kind': 'no-failing-input-found', 'theorem_or_correspondence': 'concurrent runs under the race detector (test)',
+                     'what': 'exit %d: %s' % (rc, out[-2500:]), 'case': None})
+    return {'violations': viol, 'coverage': {'race_detector_run': 'exit %d, %.0fs, %s' % (rc, time.time() - t0, out.strip().split('\n')[-1][:100])}}
